@@ -18,6 +18,9 @@ type ChildTpl struct {
 	ExplicitNS bool              `json:"explicitNS,omitempty"` // namespaced parent: spell the parent's namespace out
 	Labels     map[string]string `json:"labels,omitempty"`
 	Fields     map[string]any    `json:"fields,omitempty"` // string leaves "$p:<path>" are replaced by the parent's value at path
+	// EchoAnnotations: when the child is observed, the hook copies the observed
+	// metadata.annotations into its desired child (a common "start from what I was sent" hook style).
+	EchoAnnotations bool `json:"echoAnnotations,omitempty"`
 }
 
 // HookProgram is a pure, serialisable hook: response = f(request JSON).
@@ -232,6 +235,26 @@ func (p *HookProgram) eval(sim *vs.Server, parent, observed map[string]any, fina
 	} else {
 		for _, c := range all {
 			desired = append(desired, c)
+		}
+	}
+	// hooks that echo observed annotations back
+	for _, tpl := range p.Children {
+		if !tpl.EchoAnnotations {
+			continue
+		}
+		d := sim.Def(tpl.Resource)
+		for i, c := range desired {
+			cm := c.(map[string]any)
+			if cm["kind"] != d.Kind {
+				continue
+			}
+			if o, ok := observedLookup(sim, observed, pns, cm); ok {
+				if ann, ok := getPath(o, "metadata.annotations"); ok {
+					cc := vs.CopyMap(cm)
+					cc["metadata"].(map[string]any)["annotations"] = vs.DeepCopyAny(ann)
+					desired[i] = cc
+				}
+			}
 		}
 	}
 	resp := map[string]any{}
